@@ -315,6 +315,8 @@ def coordinator(check, tier, runs, budget_s, workers, vseed):
             for f in done:
                 futs.discard(f)
                 r = f.result()
+                if os.environ.get("VERIF_DEBUG"):
+                    sys.stderr.write("batch %d: %.1fs cases %s..%s\n" % (r["b"], r["wall"], r["indices"][0], r["indices"][-1]))
                 hashseeds.add(r["hashseed"])
                 got_summary = False
                 last_start = None
